@@ -95,7 +95,7 @@ def run(tier, replay=None):
                    "(BTYPE=3, LEN/NLEN, over-subscribed lit/len and code-length sets, missing EOB code, repeat-16 first, repeat past end, distance symbol 30, lit/len 286, distance beyond output, gzip/zlib header and trailer faults) with the documented class, random byte strings; "
                    "each run one-shot and streaming (1..3-byte chunks) under the three decode kernels; TLC classifies every byte string with the spec and requires: no FINISH unless the spec accepts, delivered bytes = prefix of the spec's decode, documented codes only, "
                    "<= avail_out written, progress, documented class for injected faults; distinct_nontrivial = runs whose byte string the spec does not accept",
-           "samples": [igz.describe(scns[10]), igz.describe(scns[-1])]}
+           "samples": [igz.describe(scns[min(10, len(scns) - 1)]), igz.describe(scns[-1])]}
     cleanup(wd)
     return v.finish("exploration", cov, ["the TLA+ decoder classifies each input; streams RFC 1951 does not clearly forbid (incomplete code sets) are 'lenient': either outcome is accepted",
                                          "error class is asserted only for injected single faults"])
